@@ -106,10 +106,11 @@ func NewSession(id uint16, clientMAC, serverMAC net.HardwareAddr) (*Session, err
 		return nil, fmt.Errorf("failed to generate session ID: %w", err)
 	}
 
+	// Copy the MACs: the server passes slices of its receive buffer, which the next frame overwrites
 	return &Session{
 		ID:           id,
-		ClientMAC:    clientMAC,
-		ServerMAC:    serverMAC,
+		ClientMAC:    append(net.HardwareAddr(nil), clientMAC...),
+		ServerMAC:    append(net.HardwareAddr(nil), serverMAC...),
 		State:        StateDiscovery,
 		MagicNumber:  magic,
 		MRU:          1492, // Default PPPoE MRU
